@@ -2,6 +2,8 @@ import Driver.ProgJson
 import Heph.Model.Check
 import Heph.Model.CondType
 import Heph.Model.GenVar
+import Heph.Model.GenFuncRef
+import Heph.Model.GenNew
 /-! ops of the C01 family.
   `check.wt` {program export + "bt": {"any","void","boolean","char","string","integer": index into tt,
   "builtins": [indices]}} → {"r": "ok" | {"path": [...], "reason": tag, "detail": text},
@@ -24,8 +26,121 @@ def tally (tags : List String) : Json :=
 def failJson (o : Ob) : Json :=
   Json.arr #[ofStrList o.path, Json.str o.tag, Json.str o.j.detail, Json.str o.j.kinds]
 
+/-! ### decision points of the generator (batch ops: one request per program, `"calls"` = recorded calls) -/
+
+def parseVars (tbl : Array Ty) (j : Json) (k : String) : Except String (List VarInfo) := do
+  (← getArr j k).toList.mapM fun v => do
+    pure ({ name := ← getStr v "name", ty := ← tyAt tbl v "t", final := ← getBool v "final",
+            outer := ← getBool v "outer" } : VarInfo)
+
+/-- `{"name", "t", "params": [idx], "fn": idx?}`; without `"fn"` the constructor is never read -/
+def parseAttr (tbl : Array Ty) (a : Json) : Except String AttrSig := do
+  let fn ← tyOptAt tbl a "fn"
+  pure { name := ← getStr a "name", ty := ← tyAt tbl a "t", params := ← tyListAt tbl a "params",
+         fnCon := fn.getD (.ext "no-function-type") }
+
+def parseMode (j : Json) : AttrMode :=
+  match j.getObjVal? "mode" with
+  | .ok (Json.str "last") => .lastArg
+  | _ => .whole
+
+def batch (j : Json) (f : Json → Except String Json) : Except String Json := do
+  let cs ← getArr j "calls"
+  let out ← cs.toList.mapM f
+  pure (res (Json.arr out.toArray))
+
 def handle : Handler := fun op j =>
   match op with
+  | "check.sigcompat" => some (do
+      -- calls: {"attr", "etype", "m", "sig", "sub", "mode"} → the model's answer of `_is_sigtype_compatible`
+      let tbl ← parseTable j
+      let extra ← parsePairs j "extra"
+      batch j fun c => do
+        let a ← parseAttr tbl (← c.getObjVal? "attr")
+        pure (resToJson (sigtypeCompatible extra a (← tyAt tbl c "etype") (← parseTMap tbl c "m")
+          (← getBool c "sig") (← getBool c "sub") (parseMode c))))
+  | "check.funcallref" => some (do
+      -- calls: {"vars", "objs": [{"t","name","inst"}] | null, "etype", "sub", "jl",
+      --         "out": null | {"name","norecv","args"}} → {"ok", "cands", "stage"}
+      let tbl ← parseTable j
+      let extra ← parsePairs j "extra"
+      batch j fun c => do
+        let vs ← parseVars tbl c "vars"
+        let objs ← match c.getObjVal? "objs" with
+          | .ok (Json.arr a) => a.toList.mapM fun o => do
+              pure ({ attrTy := ← tyAt tbl o "t", name := ← getStr o "name", inst := ← parseTMap tbl o "inst" } : MatchedObj)
+          | _ => pure []
+        let et ← tyAt tbl c "etype"
+        let sub ← getBool c "sub"
+        let jl ← getBool c "jl"
+        let o := c.getObjValD "out"
+        let out ← if o.isNull then pure FuncCallRefOut.none else do
+          pure (FuncCallRefOut.call (← getStr o "name") (← getBool o "norecv") (← tyListAt tbl o "args"))
+        let stage := if !(funcCallRefVars extra vs et sub jl).isEmpty then "vars"
+          else if objs.isEmpty then "none" else "objs"
+        pure (Json.mkObj [("ok", Json.bool (funcCallRefRefines structEqL extra vs objs et sub jl out)),
+          ("cands", ofStrList ((funcCallRefCandidates extra vs objs et sub jl).map (·.name))),
+          ("stage", Json.str stage)]))
+  | "check.funcref" => some (do
+      -- calls: {"funcs": [attr + "m"], "self", "etype", "out": null | {"name", "sig"}}
+      --  → {"ok": the outcome refines `funcRefCandidates`, "cands", "compat": every declaration handed over by
+      --     `_get_matching_function_declarations` passes `_is_sigtype_compatible(.., True, False)` under its map}
+      let tbl ← parseTable j
+      batch j fun c => do
+        let et ← tyAt tbl c "etype"
+        let fs ← (← getArr c "funcs").toList.mapM fun f => do pure (← parseAttr tbl f, ← parseTMap tbl f "m")
+        let self ← getStr c "self"
+        let cands := funcRefCandidates (fs.map (·.1)) self
+        let o := c.getObjValD "out"
+        let ok ← if cands.isEmpty then pure true else
+          if o.isNull then pure false else do
+            let n ← getStr o "name"
+            let sg ← tyAt tbl o "sig"
+            pure (cands.any (fun a => a.name == n) && structEq sg et)
+        let compat := fs.all fun (a, m) => sigtypeCompatible [] a et m true false .whole == .yes
+        pure (Json.mkObj [("ok", Json.bool ok), ("cands", ofStrList (cands.map (·.name))),
+          ("compat", Json.bool compat)]))
+  | "check.subclass" => some (do
+      -- calls: {"etype", "ename", "sub", "classes": [{"name","regular","parameterized","t"}], "out": name | null}
+      --  → {"ok": the outcome refines `subclassCandidates`, "cands"}
+      let tbl ← parseTable j
+      batch j fun c => do
+        let cls ← (← getArr c "classes").toList.mapM fun x => do
+          pure ({ name := ← getStr x "name", regular := ← getBool x "regular",
+                  parameterized := ← getBool x "parameterized", ty := ← tyAt tbl x "t" } : ClassCand)
+        let et ← tyAt tbl c "etype"
+        let en := ((c.getObjValD "ename").getStr?).toOption.getD (attrName et)
+        let sub ← getBool c "sub"
+        let out := ((c.getObjValD "out").getStr?).toOption
+        pure (Json.mkObj [("ok", Json.bool (subclassRefines cls et en sub out)),
+          ("cands", ofStrList ((subclassCandidates cls et en sub).map (·.name)))]))
+  | "check.gennew" => some (do
+      -- calls: {"etype", "ename", "cls": {"name","t","tparams","fields"} | null, "any", "void", "black", "tvnames",
+      --         "insts", "args": expected types handed to generate_expr, "out": {"kind", "t"?, "nargs"?}}
+      --  → {"plan": kind of the model's plan, "ok": the recorded outcome is the plan}
+      let tbl ← parseTable j
+      batch j fun c => do
+        let et ← tyAt tbl c "etype"
+        let en := ((c.getObjValD "ename").getStr?).toOption.getD (attrName et)
+        let cj := c.getObjValD "cls"
+        let cls ← if cj.isNull then pure none else do
+          pure (some ({ name := ← getStr cj "name", ty := ← tyAt tbl cj "t", tparams := ← tyListAt tbl cj "tparams",
+                        fields := ← tyListAt tbl cj "fields" } : NewClass))
+        let strs (k : String) : Except String (List String) := do
+          (← getArr c k).toList.mapM fun x => x.getStr?
+        let plan := genNewPlan (isFunctionType et) et en cls (← tyAt tbl c "any") (← tyAt tbl c "void")
+          (← strs "black") (← strs "tvnames") (← tyListAt tbl c "insts")
+        let o ← c.getObjVal? "out"
+        let kind ← getStr o "kind"
+        let ot ← tyOptAt tbl o "t"
+        let args ← tyListAt tbl c "args"
+        let (pk, ok) := match plan with
+          | .funcRefOrLambda => ("funcRefOrLambda", kind == "Lambda" || kind == "FunctionReference")
+          | .trivial t => ("trivial", kind == "New" && structEqO (some t) ot && args.isEmpty)
+          | .bottom t => ("bottom", kind == "BottomConstant" && structEqO t ot)
+          | .new ty exp => ("new", kind == "New" && structEqO (some ty) ot && structEqL exp args)
+          | .error => ("error", false)
+        pure (Json.mkObj [("plan", Json.str pk), ("ok", Json.bool ok)]))
   | "check.wt" => some (do
       let (tbl, p) ← parseProgramObj j
       let lt ← parseLangTypes tbl j
